@@ -1,9 +1,13 @@
 #!/usr/bin/env python3
 """Confirm sub-agent produced seeded changes in a scratch worktree and file them under /verif/seeded/.
-usage: confirm_seeds.py <outdir-root (/tmp/mut)> [Cxx ...]"""
+usage: confirm_seeds.py <outdir-root (/tmp/mut)> [--variants=A,B] [Cxx ...]"""
 import json, os, re, shutil, subprocess, sys
 ROOT = sys.argv[1]
-ids = sys.argv[2:] or sorted(d[:-4] for d in os.listdir(ROOT) if d.endswith(".out"))
+rest = sys.argv[2:]
+VARIANTS = ("A", "B")
+if rest and rest[0].startswith("--variants="):
+    VARIANTS = tuple(rest.pop(0).split("=", 1)[1].split(","))
+ids = rest or sorted(d[:-4] for d in os.listdir(ROOT) if d.endswith(".out"))
 WT = "/tmp/confirm_wt"
 ENV = dict(os.environ, GOFLAGS="-mod=mod", GOPROXY="off", GOSUMDB="off", GOTOOLCHAIN="local")
 def sh(cmd, cwd=WT):
@@ -15,7 +19,7 @@ def clean():
     sh("git checkout -q -- . && git clean -fdq")
 for pid in ids:
     od = os.path.join(ROOT, pid + ".out")
-    for var in ("A", "B"):
+    for var in VARIANTS:
         patch = os.path.join(od, var + ".patch.diff")
         demo = os.path.join(od, var + ".demo_test.go")
         if not (os.path.exists(patch) and os.path.exists(demo)):
